@@ -27,3 +27,17 @@ func FuzzModel(f *testing.F) {
 		}
 	}))
 }
+
+// FuzzNoEntries: the same for ammo files without entries (generator and oracle of TestNoEntries).
+func FuzzNoEntries(f *testing.F) {
+	pand.Init()
+	r := vf.Detached("C14")
+	f.Add([]byte{})
+	f.Add([]byte{1, 2, 3, 4, 5, 6, 7, 8, 9, 10, 11, 12, 13, 14, 15, 16})
+	f.Fuzz(rapid.MakeFuzz(func(t *rapid.T) {
+		c := genNoEntries(t)
+		if err := vf.Guard(func() error { return checkNoEntries(c, &vf.Obs{}, r) }); err != nil {
+			t.Fatalf("%v", err)
+		}
+	}))
+}
